@@ -326,6 +326,16 @@ if __name__ == "__main__":
             cs = sorted(m.get("detected_by") or [m["property"]], key=lambda c: c != m["property"])[:1]
             tb[m["seed"]] = {"diff": os.path.join(os.path.dirname(meta), "patch.diff"), "props": cs}
         pcheck(int(sys.argv[2]), sys.argv[3:], os.path.join(ROOT, "selftest", "seed_regression.json"), None, tb, prefix="vss")
+    elif cmd == "refactors":
+        # refactors JOBS: the stored property-preserving refactorings against all twenty quick checks, in scratch
+        # copies (results in selftest/refactor_regression.json; every exit must be 0)
+        import glob
+        tb = {}
+        for d in sorted(glob.glob(os.path.join(ROOT, "refactors/*/patch.diff"))):
+            rid = os.path.basename(os.path.dirname(d))
+            for half, props in (("a", ["C%02d" % i for i in range(1, 11)]), ("b", ["C%02d" % i for i in range(11, 21)])):
+                tb["%s-%s" % (rid, half)] = {"diff": d, "props": props}
+        pcheck(int(sys.argv[2]), sys.argv[3:], os.path.join(ROOT, "selftest", "refactor_regression.json"), None, tb, prefix="vsf")
     elif cmd == "report":
         report()
     elif cmd == "count":
